@@ -436,6 +436,19 @@ def run(rep):
     return rep
 
 
+def run_stage(rep):
+    """Extra stage of C02: the HTTP/2 probe cache every new HTTPS connection goes through when HTTP/2 is enabled."""
+    rep.extra_module = "vh.h2probe"
+    try:
+        keep_rule, keep_samples = rep.rule, list(rep.samples)
+        run(rep)
+        rep.extra["h2probe_rule"] = rep.rule
+        rep.rule, rep.samples = keep_rule, keep_samples or rep.samples
+    finally:
+        rep.extra_module = None
+    return rep
+
+
 def replay(rep, path):
     case = json.load(open(path))["case"]
     steps = case["steps"]
